@@ -210,9 +210,11 @@ def make_layout(rng, volumes=None, home_own_volume=None, uid=None, xdg=None,
         L.alt_state[v] = al
         top = L.vol_path(v, '.Trash')
         if ts == 'sticky':
-            L.add({'p': top, 't': 'd', 'm': 0o1777})
+            L.add({'p': top, 't': 'd',
+                   'm': rng.choice([0o1777, 0o1777, 0o1777, 0o3777, 0o1770])})
         elif ts == 'nonsticky':
-            L.add({'p': top, 't': 'd', 'm': 0o777})
+            L.add({'p': top, 't': 'd',
+                   'm': rng.choice([0o777, 0o777, 0o755, 0o2777, 0o4755, 0o6775])})
         elif ts in ('link_sticky', 'link_nonsticky'):
             tgt = L.vol_path(v, 'shared-trash')
             L.add({'p': tgt, 't': 'd',
